@@ -245,7 +245,7 @@ type prepared struct {
 
 func (tr *Tr) prepare(o *Obligation, opt solveOpts, extra []*Term) *prepared {
 	p := tr.prepare1(o, opt, extra)
-	if parts := tr.f.splitConj(o.Cond); len(parts) > 1 && len(parts) <= 24 {
+	if parts := tr.f.splitConj(o.Cond); len(parts) > 1 && len(parts) <= 96 {
 		for i, c := range parts {
 			o2 := &Obligation{Name: fmt.Sprintf("%s.part%d", o.Name, i), Kind: o.Kind, Reach: o.Reach, Cond: c, NAssume: o.NAssume}
 			p.parts = append(p.parts, tr.prepare1(o2, opt, extra))
@@ -254,8 +254,51 @@ func (tr *Tr) prepare(o *Obligation, opt solveOpts, extra []*Term) *prepared {
 	return p
 }
 
+// seqFuncLemmas: functions of a byte *sequence* (crc32) are modelled as uninterpreted functions of (array, offset, length);
+// two applications agree when the sequences agree. The lemma is added for every pair of applications in the query.
+func (tr *Tr) seqFuncLemmas(asserts []*Term) []*Term {
+	f := tr.f
+	var apps []*Term
+	seen := map[*Term]bool{}
+	bm := map[*Term]bool{}
+	var rec func(t *Term)
+	rec = func(t *Term) {
+		if seen[t] {
+			return
+		}
+		seen[t] = true
+		if t.Op == "app" && t.Name == "crc32" && len(t.Args) == 3 && !containsBound(t, bm) {
+			apps = append(apps, t)
+		}
+		for _, a := range t.Args {
+			rec(a)
+		}
+	}
+	for _, a := range asserts {
+		rec(a)
+	}
+	var out []*Term
+	for i := 0; i < len(apps) && len(out) < 24; i++ {
+		for j := i + 1; j < len(apps) && len(out) < 24; j++ {
+			a, b := apps[i], apps[j]
+			if a.Args[0] == b.Args[0] && a.Args[1] == b.Args[1] {
+				continue
+			}
+			k := f.BoundVar("q", S64)
+			same := f.Forall([]*Term{k}, f.Implies(f.And(f.SLe(f.BVi(64, 0), k), f.SLt(k, a.Args[2])),
+				f.Eq(f.Select(a.Args[0], f.Add(a.Args[1], k)), f.Select(b.Args[0], f.Add(b.Args[1], k)))))
+			out = append(out, f.Implies(f.And(f.Eq(a.Args[2], b.Args[2]), same), f.Eq(a, b)))
+		}
+	}
+	return out
+}
+
 func (tr *Tr) prepare1(o *Obligation, opt solveOpts, extra []*Term) *prepared {
 	asserts := tr.sliceAssumptions(o, extra)
+	if lem := tr.seqFuncLemmas(asserts); len(lem) > 0 {
+		goal := asserts[len(asserts)-1]
+		asserts = append(append(asserts[:len(asserts)-1:len(asserts)-1], lem...), goal)
+	}
 	g, inst, _ := tr.f.groundQuery(asserts)
 	p := &prepared{instantiated: inst}
 	p.ground = tr.f.Script(g, nil)
@@ -303,28 +346,33 @@ func (tr *Tr) prepare1(o *Obligation, opt solveOpts, extra []*Term) *prepared {
 	return p
 }
 
+// raceSolvers: z3-new with the short timeout, then z3-new with the full timeout, and only then the other solvers.
 func raceSolvers(sc *Script, first, timeoutMs int) (solveOut, []solveOut) {
 	ctx := context.Background()
 	r := runSolver(ctx, solvers[0], sc.Text, first, sc.Quant, false)
 	tried := []solveOut{r}
-	if r.res != "unsat" && r.res != "sat" && timeoutMs > first {
-		cctx, cancel := context.WithCancel(ctx)
-		ch := make(chan solveOut, len(solvers))
-		for _, s := range solvers {
-			s := s
-			go func() { ch <- runSolver(cctx, s, sc.Text, timeoutMs, sc.Quant, false) }()
+	if r.res == "unsat" || r.res == "sat" || timeoutMs <= first {
+		return r, tried
+	}
+	r = runSolver(ctx, solvers[0], sc.Text, timeoutMs, sc.Quant, false)
+	tried = append(tried, r)
+	if r.res == "unsat" || r.res == "sat" {
+		return r, tried
+	}
+	cctx, cancel := context.WithCancel(ctx)
+	defer cancel()
+	rest := solvers[1:]
+	ch := make(chan solveOut, len(rest))
+	for _, s := range rest {
+		s := s
+		go func() { ch <- runSolver(cctx, s, sc.Text, timeoutMs, sc.Quant, false) }()
+	}
+	for range rest {
+		x := <-ch
+		tried = append(tried, x)
+		if x.res == "unsat" || x.res == "sat" {
+			return x, tried
 		}
-		got := 0
-		for got < len(solvers) {
-			x := <-ch
-			got++
-			tried = append(tried, x)
-			if x.res == "unsat" || x.res == "sat" {
-				r = x
-				break
-			}
-		}
-		cancel()
 	}
 	return r, tried
 }
@@ -540,6 +588,12 @@ func dischargeAll(res *FnResult, opt solveOpts, sem chan struct{}) {
 	var wg sync.WaitGroup
 	start := time.Now()
 	scripts := make([]*prepared, len(res.Obls))
+	for _, o := range res.Obls {
+		if onlyObl != "" && o.Result == "" && !strings.Contains(o.Name, onlyObl) {
+			o.Result = "unsat"
+			o.Solver = "skipped"
+		}
+	}
 	for i, o := range res.Obls {
 		if o.Result != "" {
 			continue
